@@ -257,16 +257,26 @@ class Taps:
         except (TypeError, ValueError):
             return wrapped
         P = inspect.Parameter
-        if any(p.kind in (P.VAR_POSITIONAL, P.VAR_KEYWORD) for p in sw.parameters.values()):
-            return wrapped  # passes the call through as it came
-        pos_o = [p for p in so.parameters.values() if p.kind in (P.POSITIONAL_ONLY, P.POSITIONAL_OR_KEYWORD)]
-        pos_w = [p for p in sw.parameters.values() if p.kind in (P.POSITIONAL_ONLY, P.POSITIONAL_OR_KEYWORD)]
-        kw_o = sorted(p.name for p in so.parameters.values() if p.kind == P.KEYWORD_ONLY)
-        kw_w = sorted(p.name for p in sw.parameters.values() if p.kind == P.KEYWORD_ONLY)
-        if len(pos_o) != len(pos_w) or kw_o != kw_w or any(p.kind in (P.VAR_POSITIONAL, P.VAR_KEYWORD) for p in so.parameters.values()):
+        POS = (P.POSITIONAL_ONLY, P.POSITIONAL_OR_KEYWORD)
+        w_pos = [p.name for p in sw.parameters.values() if p.kind in POS]
+        w_kwonly = sorted(p.name for p in sw.parameters.values() if p.kind == P.KEYWORD_ONLY)
+        w_varpos = any(p.kind == P.VAR_POSITIONAL for p in sw.parameters.values())
+        w_varkw = any(p.kind == P.VAR_KEYWORD for p in sw.parameters.values())
+        o_pos = [p.name for p in so.parameters.values() if p.kind in POS]
+        o_kwonly = sorted(p.name for p in so.parameters.values() if p.kind == P.KEYWORD_ONLY)
+        o_var = any(p.kind in (P.VAR_POSITIONAL, P.VAR_KEYWORD) for p in so.parameters.values())
+        if not w_pos and w_varpos:
+            return wrapped  # (*args, **kwargs): passes the call through as it came
+        # the parameters the wrapper names must be the tapped function's leading parameters, by name and in order
+        same_lead = o_pos[: len(w_pos)] == w_pos
+        complete = (len(o_pos) == len(w_pos) and o_kwonly == w_kwonly) or w_varkw
+        if o_var and same_lead and w_varpos and w_varkw:
+            return wrapped  # both take open argument lists: nothing to normalise, the wrapper forwards what it gets
+        if o_var or not same_lead or not complete:
             self.missing.append(f"{where}: parameter list changed {so} (tap written for {sw})")
             self.ctx.count(f"{tapname}.missing")
             return None
+        n_lead = len(w_pos)
 
         def outer(*args: Any, **kwargs: Any) -> Any:
             try:
@@ -274,7 +284,8 @@ class Taps:
             except TypeError:
                 return orig(*args, **kwargs)
             b.apply_defaults()
-            return wrapped(*b.args, **b.kwargs)
+            items = list(b.arguments.items())
+            return wrapped(*[v for _, v in items[:n_lead]], **{k: v for k, v in items[n_lead:]})
 
         outer.__name__ = getattr(orig, "__name__", "tap")
         outer.__doc__ = getattr(orig, "__doc__", None)
@@ -326,6 +337,8 @@ class Taps:
         self.installed.append(f"{cls.__name__}.{name}")
 
     def uninstall(self) -> None:
+        if self.missing:
+            self.ctx.notes["taps_missing"] = list(self.missing)
         for u in reversed(self._undo):
             try:
                 u()
